@@ -268,6 +268,48 @@ func checkBreakGuards(c *Ctx, rule string) {
 	}
 	c.Check(okDef, rule, "break-predicate:definition", p.Pos(isBreaking.Pos()), "IsBreaking ≡ Level == -1", "the break predicate is no longer Level == -1")
 
+	// "blinds are set" predicate: level != 0 and none of the four amounts is the unset value
+	var isSet *ssa.Function
+	for _, f := range p.Funcs {
+		if f.Name() == "IsSet" && f.Signature.Recv() != nil && namedOf(f.Signature.Recv().Type()) != nil && namedOf(f.Signature.Recv().Type()).Obj().Name() == "TableBlindState" {
+			isSet = f
+		}
+	}
+	if isSet == nil {
+		c.Bad(rule, "blinds-set-predicate:definition", "-", "IsSet not found")
+	} else {
+		names := []string{"Level", "Ante", "Dealer", "SB", "BB"}
+		ok, why := checkBoolFunc(p, isSet, func(g Guard) (string, bool, bool) {
+			cm := g.AsCmp()
+			if cm == nil {
+				return "", false, false
+			}
+			l := cm.L.Strip()
+			if l.Kind != "field" || l.Owner != "TableBlindState" {
+				return "", false, false
+			}
+			z, isZ := cm.R.ConstInt()
+			want := int64(-1)
+			if l.Name == "Level" {
+				want = 0
+			}
+			if !isZ || z != want {
+				return "", false, false
+			}
+			// atom "<field> is set" = field != unset
+			switch cm.Op {
+			case token.NEQ:
+				return l.Name, true, true
+			case token.EQL:
+				return l.Name, false, true
+			}
+			return "", false, false
+		}, names, func(a map[string]bool) bool {
+			return a["Level"] && a["Ante"] && a["Dealer"] && a["SB"] && a["BB"]
+		})
+		c.Check(ok, rule, "blinds-set-predicate:definition", p.Pos(isSet.Pos()), "IsSet ≡ Level != 0 ∧ Ante,Dealer,SB,BB != unset", "the 'blinds are set' predicate changed: "+why)
+	}
+
 	// open step: the function incrementing the hand counter
 	var openFn *ssa.Function
 	var incr *StoreSite
